@@ -159,4 +159,9 @@ def r5(ctx):
         ctx.check(len(ad) == 1 and norm(ad[0].value) == "list(sig.parameters.items())", "C20.R5", fi, "parameters are taken from the method signature, in order")
 
 
-RULES = [("C20.R1", r1), ("C20.R2", r2), ("C20.R3", r3), ("C20.R4", r4), ("C20.R5", r5)]
+def r_idioms(ctx):
+    from .common import repo_idioms
+    repo_idioms(ctx, "C20.R6", ('dispatch',))
+
+
+RULES = [("C20.R1", r1), ("C20.R2", r2), ("C20.R3", r3), ("C20.R4", r4), ("C20.R5", r5), ("C20.R6", r_idioms)]
